@@ -33,6 +33,8 @@ def handle : List String → Option String
   | ["pyg.getitem.list", sigs, ix, real] => do
     pure ((getitemList (← parseNatLists sigs) (← parseIdxVal ix) real).getD "ok")
   | ["pyg.getattr", obj, path, pn, real] => getattrNested obj path pn real
+  | ["pyg.filesig", k, pre, recs, real] => do
+    pure ((calcFileSignature (← k.toNat?) (← parseHex pre) (← parseHexList recs) real).getD "ok")
   | ["pyg.chunks", n, size, real] => do
     pure ((chunks (← n.toInt?) (← size.toInt?) real).getD "ok")
   | ["pyg.chk", n, i, real] => do
